@@ -63,6 +63,10 @@ def gen_world(rng):
         chain.append('GObject')
         dump.append(dict(k='class', name=c, get_type='foo_obj%d_get_type' % i, parents=chain, abstract=rng.random() < 0.2,
                          final=rng.random() < 0.2, ifaces=sorted(rng.sample(ifaces, rng.randint(0, len(ifaces)))), props=props(), sigs=sigs()))
+        if rng.random() < 0.35:
+            # the type also implements an interface that is not part of the API (no such type is registered by the dump, as with
+            # GtkFileChooserEmbed): it is left out, the public ones stay
+            dump[-1]['ifaces'] = sorted(dump[-1]['ifaces'] + ['FooPrivEmbed%d' % rng.randint(0, 1)])
     for i, c in enumerate(ifaces):
         suffix = rng.choice(['Iface', 'Interface', 'Interface', None])
         recs.append((c[3:], []))
@@ -71,7 +75,8 @@ def gen_world(rng):
             if rng.random() < 0.2 and suffix == 'Interface':
                 recs.append((c[3:] + 'Iface', cbs(c)))
         dump.append(dict(k='interface', name=c, get_type=rng.choice(['foo_iface%d_get_type', 'foo_iface%d_get_gtype']) % i,
-                         prereqs=rng.sample(['GObject'] + classes, rng.randint(0, 2)), props=props(), sigs=sigs()))
+                         prereqs=rng.sample(['GObject'] + classes, rng.randint(0, 2)) + (['FooPrivBase'] if rng.random() < 0.3 else []),
+                         props=props(), sigs=sigs()))
     for i, c in enumerate(boxes):
         recs.append((c[3:], []))
         dump.append(dict(k='boxed', name=c, get_type='foo_box%d_get_type' % i))
@@ -213,10 +218,10 @@ def coq_world(i, world, obs_classes, obs_recs, obs_funcs):
     for d in world['dump']:
         if d['k'] == 'class':
             dump.append('(DClass %s %s %s %s %s %s %s %s)' % (cstr(d['name']), cstr(d['get_type']), clist([cstr(x) for x in d['parents']]),
-                                                            cbool(d['abstract']), cbool(d['final']), clist([cstr(x) for x in d['ifaces']]),
+                                                            cbool(d['abstract']), cbool(d['final']), clist([cstr(x) for x in d['ifaces'] if not x.startswith('FooPriv')]),
                                                             clist([dprop(p) for p in d['props']]), clist([dsig(s) for s in d['sigs']])))
         elif d['k'] == 'interface':
-            dump.append('(DInterface %s %s %s %s %s)' % (cstr(d['name']), cstr(d['get_type']), clist([cstr(x) for x in d['prereqs']]),
+            dump.append('(DInterface %s %s %s %s %s)' % (cstr(d['name']), cstr(d['get_type']), clist([cstr(x) for x in d['prereqs'] if not x.startswith('FooPriv')]),
                                                        clist([dprop(p) for p in d['props']]), clist([dsig(s) for s in d['sigs']])))
         else:
             dump.append('(DBoxed %s %s)' % (cstr(d['name']), cstr(d['get_type'])))
@@ -382,7 +387,7 @@ def main(tier, seed):
     ck = Check('C12', tier, seed)
     ck.assumptions += ['the runtime dump is given as XML (the introspection binary cannot be built and run here); girepository/gdump.c is '
                        'not exercised', 'declarations are SourceSymbol trees (stub lexer)',
-                       'GType names of the dump carry the namespace identifier prefix; implemented interfaces and prerequisites are known types',
+                       'GType names of the dump carry the namespace identifier prefix; implemented interfaces and prerequisites that no dump entry registers (FooPriv*) are given to the scanner but not to the model, whose domain is the known ones: they must be left out and the known ones kept',
                        'enumerations, flags and error quarks of the dump are judged by direct clauses in worlds of their own (not in the Coq model); '
                        'pointer and fundamental types of the dump are not generated']
     ck.prove(['gen_c02.py'], models=['Model/C12Spec.vo', 'Model/C12Q.vo'])
@@ -463,6 +468,15 @@ def main(tier, seed):
             if got_vf != want_vf:
                 ck.failing_input('virtual methods are not exactly the function-pointer members whose first parameter is the instance',
                                  dict(world=w, type=d['name']), detail=dict(expected=want_vf, got=got_vf))
+            # exactly the interfaces / prerequisites reported, as far as they are known types
+            known_names = set(INCLUDES) | set(x['name'] for x in w['dump'])
+            reported = d['ifaces'] if d['k'] == 'class' else d['prereqs']
+            want_rel = sorted(INCLUDES.get(x, x[3:] if x.startswith('Foo') else x) for x in reported if x in known_names)
+            got_rel = sorted(r.get('name') for r in el.findall(S.CORE + ('implements' if d['k'] == 'class' else 'prerequisite')))
+            if got_rel != want_rel:
+                ck.failing_input('the %s of a type are not exactly the known ones the runtime dump reports'
+                                 % ('interfaces' if d['k'] == 'class' else 'prerequisites'), dict(world=w, type=d['name'], reported=reported),
+                                 detail=dict(expected=want_rel, got=got_rel))
             if d['k'] == 'class':
                 known = set(INCLUDES) | set(x['name'] for x in w['dump'])
                 nearest = next((p for p in d['parents'] if p in known), None)
